@@ -548,7 +548,13 @@ fn run_case(rt: &Runtime, w: &World, c: &[u64]) -> Option<(Vec<u64>, Vec<u64>)> 
                     let installed = match TransportManager::verif_route(&real_of(w, a).expect("stored")) {
                         Some(SupportedTransport::Tcp) => et,
                         Some(SupportedTransport::WebSocket) => ew,
+                        // only when the harness is built with its optional `quic` feature (C07's QUIC stream)
+                        #[cfg(feature = "quic")]
+                        Some(SupportedTransport::Quic) => false,
                         None => false,
+                        // only when the harness is built with its optional `quic` feature
+                        #[cfg(feature = "quic")]
+                        Some(SupportedTransport::Quic) => false,
                     };
                     installed && a.last() == Some(&(10, peer))
                 });
